@@ -571,15 +571,21 @@ class SlotNode(BaseNode):
             # NOTE: This applies only to the content that came from OUTSIDE of the component (the fill).
             # The slot's own default content is part of this component's template, so any `{% block %}`
             # tags in it must be resolved against the blocks of this component's template.
+            #
+            # The layer of the outer template sits right below the layer that was pushed for this component.
+            # We can't assume it's the second layer from the top, because `{% include %}` or other slots
+            # may have pushed more layers since.
+            render_ctx_dicts = used_ctx.render_context.dicts
+            outer_layer_index = (component_ctx.render_context_index or 0) - 1
             if (
                 slot_fill.is_filled
-                and len(used_ctx.render_context.dicts) > 1
-                and "block_context" in used_ctx.render_context.dicts[-2]
+                and 0 <= outer_layer_index < len(render_ctx_dicts) - 1
+                and "block_context" in render_ctx_dicts[outer_layer_index]
             ):
-                render_ctx_layer = used_ctx.render_context.dicts[-2]
+                render_ctx_layer = render_ctx_dicts[outer_layer_index]
             else:
                 # Otherwise we simply re-use the last layer, so that following logic uses `with` in either case
-                render_ctx_layer = used_ctx.render_context.dicts[-1]
+                render_ctx_layer = render_ctx_dicts[-1]
 
             with used_ctx.render_context.push(render_ctx_layer):
                 with add_slot_to_error_message(component_name, slot_name):
